@@ -17,6 +17,12 @@ func main() {
 		cmdRun()
 	case "oracle":
 		cmdOracle()
+	case "allocs":
+		cmdAllocs(os.Args[2:])
+	case "cost":
+		cmdCost(os.Args[2:])
+	case "race":
+		cmdRace(os.Args[2:])
 	default:
 		fmt.Fprintln(os.Stderr, "unknown command")
 		os.Exit(2)
